@@ -158,6 +158,16 @@ func pointOnSegment(p, l1, l2 Point) bool {
 		(p.Y < l1.Y && p.Y < l2.Y) || (p.Y > l1.Y && p.Y > l2.Y) {
 		return false
 	}
+	if p == l1 || p == l2 {
+		return true
+	}
+	// Compare the slopes from the end point with the smaller coordinates:
+	// seen from an end that is astronomically far away (2^54 and beyond next
+	// to ordinary coordinates) the difference l1 - p no longer depends on p,
+	// and every nearby point was "on" the segment.
+	if math.Max(math.Abs(l1.X), math.Abs(l1.Y)) > math.Max(math.Abs(l2.X), math.Abs(l2.Y)) {
+		l1, l2 = l2, l1
+	}
 	d1 := pointSubtract(l1, p)
 	d2 := pointSubtract(l2, l1)
 	if math.IsInf(d1.X, 0) || math.IsInf(d1.Y, 0) || math.IsInf(d2.X, 0) || math.IsInf(d2.Y, 0) {
